@@ -93,7 +93,7 @@ func checkC05(c *core.Check) {
 	types := []string{"string", "int", "int32", "int64", "double", "float", "bool", "datetime"}
 	nSets := 160
 	if thorough {
-		nSets = 500
+		nSets = 2500
 	}
 	bases := baseForms()
 	specs := map[string]*aspec.ASpec{}
